@@ -280,9 +280,12 @@ def main(argv=None):
         for r in results:
             todo = [(o["name"], o.get("path")) for o in r["obligations"] if o["status"] not in ("unsat", "sat", "error")]
             if todo and not r["error"]:
-                retry.append((r["key"], tier, todo))
+                # one job per obligation (they run side by side), at most 12 per run: the second pass is bounded
+                for t in todo:
+                    if len(retry) < 12:
+                        retry.append((r["key"], tier, [t]))
         if retry:
-            with ctx.Pool(processes=max(1, min(4, len(retry)))) as pool:
+            with ctx.Pool(processes=max(1, min(6, len(retry)))) as pool:
                 for key, recs in pool.imap_unordered(_worker_retry, retry, chunksize=1):
                     for r in results:
                         if r["key"] != key:
